@@ -167,7 +167,10 @@ def parse_trace(path, root_abs, root_rel):
                 ev.kind = "rename" if ev.p1 is not None and ev.p2 is not None else None
             elif name in ("unlink", "unlinkat"):
                 ps = [lit(x) for x in a if lit(x) is not None]
-                ev.p1 = rel(ps[0].decode("utf-8", "replace"))
+                q = ps[0].decode("utf-8", "replace")
+                if name == "unlinkat" and not q.startswith("/") and fdpath(a[0]) is not None:
+                    q = os.path.join(fdpath(a[0]), q)      # remove_dir_all unlinks relative to a directory fd
+                ev.p1 = rel(q)
                 if ev.p1 is not None:
                     ev.kind = "rmdir" if "AT_REMOVEDIR" in args else "unlink"
             elif name in ("ftruncate", "truncate"):
@@ -320,6 +323,15 @@ class PyFS:
             elif mode == "r":
                 cuts = [nd.synced] + [m for m in nd.marks if m > nd.synced]
                 del nd.data[cuts[rng.below(len(cuts))]:]
+            elif mode == "l":
+                # power loss that keeps part of an unsynced manifest write: cut after a whole LINE inside
+                # the unsynced tail of a manifest fragment; everything else as in mode 'b'
+                if p.startswith("mani/MANIFEST"):
+                    tail = bytes(nd.data[nd.synced:])
+                    cuts = [nd.synced + i + 1 for i, c in enumerate(tail) if c == 10 and nd.synced + i + 1 < len(nd.data)]
+                    del nd.data[(cuts[rng.below(len(cuts))] if cuts else nd.synced):]
+                else:
+                    del nd.data[nd.synced:]
             nd.synced = len(nd.data)
             nd.marks = [m for m in nd.marks if m <= len(nd.data)]
         return c
@@ -341,6 +353,13 @@ class PyFS:
                 with open(full, "wb") as fh:
                     fh.write(bytes(nd.data))
                 first[id(nd)] = full
+
+    def manifest_unsynced(self):
+        """does some manifest fragment hold unsynced bytes spanning more than one line?"""
+        for p, nd in self.files.items():
+            if p.startswith("mani/MANIFEST") and bytes(nd.data[nd.synced:]).count(b"\n") >= 2:
+                return True
+        return False
 
     def listing(self):
         """canonical description (for comparing with a real directory)"""
